@@ -11,7 +11,11 @@ Families
   sched     : SchedulingProblem: resources, activities (optional, parameters, duration bounds, uses, conditions, effects,
               constraints, release dates / deadlines), variables, scoped constraints, base effects / conditions
   typegrid  : directed: one tiny problem per (int|real) x (lower finite|infinite) x (upper finite|infinite) x magnitude
-  timegrid  : directed: one tiny temporal problem per timepoint kind x delay form x interval form
+  timegrid  : directed: one tiny temporal problem per timepoint kind x delay form x interval form; the global-end cells also
+              carry `global_end + k` (k != 0) in a durative condition / effect and / or a TemporalOversubscription interval
+              (timed goals / effects refuse it); the temporal and sched families use it in metrics / base conditions / effects
+  hgrid     : directed (run inside every htn case): tiny HTN problem + full decomposition + sequential / time-triggered flat
+              plan in which one ground action occurs 1, 2 or 3 times (adjacent, under two method instances, at two depths)
 """
 from collections import OrderedDict
 from fractions import Fraction
@@ -207,6 +211,10 @@ class G20(G):
             for _ in range(r.choice([1, 2])):
                 k = r.choice(["point", "closed", "open", "lopen", "ropen"])
                 iv = ["point", self.global_timing()] if k == "point" else [k, ["gstart", self.delay("+")], ["gend", "0"]]
+                if r.random() < 0.5:  # (legal in a metric, unlike in timed goals)
+                    dg = gend_delay(r)
+                    iv = ["point", ["gend", dg]] if k == "point" else [k, ["gend", dg], ["gend", "0"]] if r.random() < 0.5 else [k, iv[1], ["gend", dg]]
+                    self.feat.add("gend-delay:tmetric")
                 tm.append([iv, self.boolean(1, {}), r.choice(["1", "5", "-2", "7/3", "1/1000000007"])])
             rec["tmetric"] = tm
             self.feat.add("temporal-oversubscription")
@@ -442,13 +450,28 @@ class G20(G):
         for rn, cap in resources:
             if r.random() < 0.4:
                 base_eff.append([r.choice([10, 17, "5/2"]), {"kind": r.choice(["inc", "dec"]), "fluent": ["f", rn], "value": ["i", 1]}])
+        nfl = [f for f in fluents if f["type"] != "bool" and f["type"][0] in ("int", "real") and not f["sig"]]
+        if r.random() < 0.35:
+            tgt = r.choice([rn for rn, _ in resources] + [f["name"] for f in nfl]) if (resources or nfl) else None
+            if tgt is not None:
+                base_eff.append([["gend", gend_delay(r)], {"kind": r.choice(["inc", "dec"]), "fluent": ["f", tgt], "value": ["i", 1]}])
+                self.feat.add("gend-delay:sched-base-effect")
         rec["base_effects"] = base_eff
         base_conds = []
         bf = [f for f in fluents if f["type"] == "bool" and not f["sig"]]
-        if bf and r.random() < 0.4:
+        if bf and r.random() < 0.6:
             k = r.choice(["point", "closed", "open", "lopen", "ropen"])
-            iv = ["point", ["gend", "0"]] if k == "point" else [k, ["gstart", "1"], ["gend", "0"]]
+            if r.random() < 0.6:
+                dg = gend_delay(r)
+                iv = ["point", ["gend", dg]] if k == "point" else [k, ["gend", dg], ["gend", "0"]] if r.random() < 0.5 else [k, ["gstart", "1"], ["gend", dg]]
+                self.feat.add("gend-delay:sched-base-condition")
+            else:
+                iv = ["point", ["gend", "0"]] if k == "point" else [k, ["gstart", "1"], ["gend", "0"]]
             base_conds.append([iv, ["f", r.choice(bf)["name"]]])
+            if r.random() < 0.25 and acts:  # an activity condition that looks at the tail of the schedule
+                a = r.choice(acts)
+                a["conds"].append([["closed", [a["name"], "end", "0"], [None, "gend", gend_delay(r)]], ["f", r.choice(bf)["name"]]])
+                self.feat.add("gend-delay:sched-activity-condition")
         rec["base_conds"] = base_conds
         if r.random() < 0.4:
             rec["metric"] = {"kind": "makespan"}
@@ -539,8 +562,38 @@ def timegrid_recipe(rng, i):
         rec["timed_goals"] = [[iv, ["f", "q"]]]
         if kind == "gstart" and Fraction(d) > 0:
             rec["timed_effects"] = [[t1, {"kind": "assign", "fluent": ["f", "q"], "value": ["b", False], "cond": None, "forall": []}]]
+    if kind == "gend":
+        # `global_end + k` with k != 0 is refused for timed goals / timed effects, but it is a legal Timing of durative
+        # conditions / effects and of TemporalOversubscription intervals (all of them encoded as proto.Timing)
+        dg = gend_delay(rng)
+        dh = gend_delay(rng)
+        lo_d, hi_d = sorted([Fraction(dg), Fraction(dh)])
+        other = rng.choice([["gend", "0"], ["gend", str(hi_d)], ["gstart", str(abs(Fraction(d2)))]])
+        if other[0] == "gstart":
+            ivg = ["point", ["gend", dg]] if ivk == "point" else [ivk, other, ["gend", dg]]
+        else:
+            ivg = ["point", ["gend", dg]] if ivk == "point" else [ivk, ["gend", str(lo_d)], other]
+        where = (i // 4) % 3
+        if where in (0, 2):
+            act["conds"].append([ivg, ["f", "q"]])
+            g.feat.add("gend-delay:action-condition")
+            act["effects"].append([["gend", dg], {"kind": "assign", "fluent": ["f", "q"], "value": ["b", True], "cond": None, "forall": []}])
+            g.feat.add("gend-delay:action-effect")
+        if where in (1, 2):
+            rec["tmetric"] = [[ivg, ["f", "q"], rng.choice(["1", "7/3", "-2"])]]
+            if ivk != "point" and rng.random() < 0.5:
+                rec["tmetric"].append([["point", ["gend", dh]], ["f", "p"], "5"])
+            g.feat.add("gend-delay:tmetric")
+        g.feat.add("gend-delay:" + ("negative" if Fraction(dg) < 0 else "positive"))
+        g.feat.add("gend-delay:" + ("int" if Fraction(dg).denominator == 1 else "rational"))
     rec["actions"] = [act]
     return rec, sorted(g.feat)
+
+
+def gend_delay(rng):
+    """A NON-ZERO delay for a timing anchored to the end of the plan: mostly `global_end - k`."""
+    d = Fraction(rng.choice([x for x in DELAYS if Fraction(x) != 0]))
+    return str(-abs(d) if rng.random() < 0.8 else abs(d))
 
 
 # ---- recipes per family ---------------------------------------------------------------------------------
@@ -755,8 +808,11 @@ def build_sched(rec, env):
     for c, scope in rec.get("constraints", []):
         pb.add_constraint(ctx.expr(c), [ctx.expr(s) for s in scope])
     for t, eff in rec.get("base_effects", []):
-        t = Fraction(t)
-        t = int(t) if t.denominator == 1 else t
+        if isinstance(t, list):  # [kind, delay]: a Timing (else: a number = absolute time)
+            t = timing20([None] + list(t))
+        else:
+            t = Fraction(t)
+            t = int(t) if t.denominator == 1 else t
         fl, val = ctx.expr(eff["fluent"]), ctx.expr(eff["value"])
         {"assign": pb.add_effect, "inc": pb.add_increase_effect, "dec": pb.add_decrease_effect}[eff["kind"]](t, fl, val)
     for iv, c in rec.get("base_conds", []):
@@ -858,3 +914,160 @@ def gen_schedule(pb, rng):
         elif v.type.is_int_type():
             asg[v] = v.type.lower_bound if v.type.lower_bound is not None else 4
     return Schedule(acts, asg, pb.environment)
+
+
+# ---- directed hierarchical plans --------------------------------------------------------------------------------
+# One tiny HTN domain (a robot moving between locations) and, per cell, an initial task network + its full decomposition +
+# a flat plan.  The cell decides (a) the class of the flat part, (b) whether / how some *ground action* is executed more
+# than once (the decomposition refers to the flat plan's actions by per-occurrence ids, so equal content must not be
+# conflated), (c) the nesting depth of the repeated occurrences.
+HGRID_PATTERNS = ["distinct", "twice-adjacent", "twice-under-two-method-instances", "thrice", "twice-at-different-depths"]
+
+
+def hgrid_recipe(rng, i):
+    temporal = bool(i % 2)
+    pattern = HGRID_PATTERNS[(i // 2) % len(HGRID_PATTERNS)]
+    perm = [0, 1, 2, 3]
+    rng.shuffle(perm)
+    a, b, c, d = perm
+    # root subtasks: ["move", x, y] (primitive) | ["go", x, y] (method direct: move x y) | ["tour", x, y, z] (method three:
+    # go x y ; go y z ; move z y) | ["idle"] (primitive without parameters)
+    if pattern == "distinct":
+        roots = [["move", a, b], ["go", b, c], ["tour", c, d, a]]
+    elif pattern == "twice-adjacent":
+        roots = [["move", a, b], ["move", a, b]] + ([["go", b, c]] if rng.random() < 0.5 else [])
+    elif pattern == "twice-under-two-method-instances":
+        roots = [["go", a, b], ["move", b, a], ["go", a, b]]
+    elif pattern == "thrice":
+        roots = [["tour", a, b, a], ["move", a, b]]
+    else:
+        roots = [["tour", a, b, a]] + ([["move", c, d]] if rng.random() < 0.5 else [])
+    if rng.random() < 0.4:
+        k = rng.randrange(len(roots) + 1)
+        roots[k:k] = [["idle"], ["idle"]] if (pattern != "distinct" and rng.random() < 0.5) else [["idle"]]
+    order = rng.choice(["dfs", "dfs", "reversed", "shuffled"])
+    rec = {
+        "family": "hgrid",
+        "temporal": temporal,
+        "pattern": pattern,
+        "roots": roots,
+        "flat_order": order,
+        "shuffle_seed": rng.randrange(10**6),
+        "named_root_ids": rng.random() < 0.6,
+        "starts": [rng.choice(["0", "1", "1/2", "7/3", "101/100", str(2**40)]) for _ in range(12)],
+        "dur": rng.choice(["2", "1/3", "22/7"]),
+    }
+    feats = {"hplan:flat-" + ("time-triggered" if temporal else "sequential"), "hplan:pattern:" + pattern}
+    return rec, sorted(feats)
+
+
+def build_hgrid(rec, env):
+    """-> (problem, HierarchicalPlan, measured features).  Public constructors only."""
+    import random
+    from unified_planning.model import InstantaneousAction, DurativeAction, Fluent, Object
+    from unified_planning.model.htn import HierarchicalProblem, Method, Task
+    from unified_planning.model.timing import StartTiming, EndTiming
+    from unified_planning.plans import ActionInstance, SequentialPlan, TimeTriggeredPlan, HierarchicalPlan
+    from unified_planning.plans.hierarchical_plan import Decomposition, MethodInstance
+
+    tm, em = env.type_manager, env.expression_manager
+    Loc = tm.UserType("Loc")
+    pb = HierarchicalProblem("hgrid", env)
+    locs = [pb.add_object(Object(f"l{j}", Loc, env)) for j in range(4)]
+    at = pb.add_fluent(Fluent("at", Loc, environment=env))
+    pb.set_initial_value(at, locs[0])
+    temporal = rec["temporal"]
+    sig = OrderedDict([("a", Loc), ("b", Loc)])
+    if temporal:
+        move = DurativeAction("move", sig, env)
+        du = Fraction(rec["dur"])
+        move.set_fixed_duration(int(du) if du.denominator == 1 else du)
+        move.add_condition(StartTiming(), em.Equals(at, move.parameter("a")))
+        move.add_effect(EndTiming(), at, move.parameter("b"))
+        idle = DurativeAction("idle", OrderedDict(), env)
+        idle.set_fixed_duration(1)
+    else:
+        move = InstantaneousAction("move", sig, env)
+        move.add_precondition(em.Equals(at, move.parameter("a")))
+        move.add_effect(at, move.parameter("b"))
+        idle = InstantaneousAction("idle", OrderedDict(), env)
+    pb.add_action(move)
+    pb.add_action(idle)
+    go = pb.add_task(Task("go", OrderedDict([("x", Loc), ("y", Loc)]), env))
+    tour = pb.add_task(Task("tour", OrderedDict([("x", Loc), ("y", Loc), ("z", Loc)]), env))
+    direct = Method("direct", OrderedDict([("x", Loc), ("y", Loc)]), env)
+    direct.set_task(go, direct.parameter("x"), direct.parameter("y"))
+    direct.add_subtask(move, direct.parameter("x"), direct.parameter("y"), ident="mv")
+    pb.add_method(direct)
+    three = Method("three", OrderedDict([("x", Loc), ("y", Loc), ("z", Loc)]), env)
+    x, y, z = (three.parameter(n) for n in "xyz")
+    three.set_task(tour, x, y, z)
+    s1 = three.add_subtask(go, x, y, ident="g1")
+    s2 = three.add_subtask(go, y, z, ident="g2")
+    s3 = three.add_subtask(move, z, y, ident="leg3")
+    three.set_ordered(s1, s2, s3)
+    pb.add_method(three)
+
+    L = [em.ObjectExp(o) for o in locs]
+    flat = []  # ActionInstances in depth-first order (one fresh object per occurrence)
+
+    def act(a, *args):
+        ai = ActionInstance(a, tuple(args))
+        flat.append(ai)
+        return ai
+
+    def dec_go(xi, yi):
+        return MethodInstance(direct, (L[xi], L[yi]), Decomposition({"mv": act(move, L[xi], L[yi])}))
+
+    def dec_tour(xi, yi, zi):
+        sub = OrderedDict()
+        sub["g1"] = dec_go(xi, yi)
+        sub["g2"] = dec_go(yi, zi)
+        sub["leg3"] = act(move, L[zi], L[yi])
+        return MethodInstance(three, (L[xi], L[yi], L[zi]), Decomposition(dict(sub)))
+
+    root = OrderedDict()
+    tn = pb.task_network
+    depth = 0
+    for j, r in enumerate(rec["roots"]):
+        ident = f"r{j}" if rec["named_root_ids"] else None
+        if r[0] == "move":
+            st = tn.add_subtask(move, L[r[1]], L[r[2]], ident=ident)
+            root[st.identifier] = act(move, L[r[1]], L[r[2]])
+        elif r[0] == "idle":
+            st = tn.add_subtask(idle, ident=ident)
+            root[st.identifier] = act(idle)
+        elif r[0] == "go":
+            st = tn.add_subtask(go, L[r[1]], L[r[2]], ident=ident)
+            root[st.identifier] = dec_go(r[1], r[2])
+            depth = max(depth, 1)
+        else:
+            st = tn.add_subtask(tour, L[r[1]], L[r[2]], L[r[3]], ident=ident)
+            root[st.identifier] = dec_tour(r[1], r[2], r[3])
+            depth = max(depth, 2)
+    seq = list(flat)
+    if rec["flat_order"] == "reversed":
+        seq.reverse()
+    elif rec["flat_order"] == "shuffled":
+        random.Random(rec["shuffle_seed"]).shuffle(seq)
+    if temporal:
+        t, items = Fraction(0), []
+        for j, ai in enumerate(seq):
+            t = t + Fraction(rec["starts"][j % len(rec["starts"])])  # non-decreasing, possibly equal, start times
+            items.append((t, ai, Fraction(rec["dur"]) if ai.action.name == "move" else Fraction(1)))
+        flat_plan = TimeTriggeredPlan(items, env)
+    else:
+        flat_plan = SequentialPlan(seq, env)
+    plan = HierarchicalPlan(flat_plan, Decomposition(dict(root)))
+    # measured on the plan that was built (not on the recipe)
+    keys = [(ai.action.name, tuple(str(p) for p in ai.actual_parameters)) for ai in flat]
+    mult = max(keys.count(k) for k in keys)
+    feats = {
+        "hplan:flat-" + ("time-triggered" if temporal else "sequential"),
+        "hplan:max-occurrences-of-one-ground-action:" + ("1" if mult == 1 else "2" if mult == 2 else "3+"),
+        f"hplan:method-depth:{depth}",
+    }
+    if mult > 1:
+        feats.add("hplan:repeated-ground-action")
+        feats.add("hplan:repeated-ground-action:" + ("time-triggered" if temporal else "sequential"))
+    return pb, plan, feats
